@@ -49,58 +49,36 @@ Section WithSig.
     destruct H as [H|[H|[H|[H|[H|H]]]]]; try congruence; try contradiction. exact (H x Sx Rx).
   Qed.
 
-  (* governance: what the scan really refuses *)
-  Theorem gov_guarded : forall s from to sg,
-    seen_inactive s from to \/ seen_active s from to ->
+  (* governance: refused while source or target is proposer, depositor or voter of an open proposal *)
+  Theorem gov_block : forall s from to sg,
+    govwfb s = true -> involved_open s from \/ involved_open s to ->
     forall s', migrate_tx sigT recover s from to sg <> Ok s'.
   Proof.
-    intros s from to sg H s' A. apply migrate_tx_inv in A. destruct A as (_ & _ & A).
-    apply migrate_account_inv in A. destruct A as (_ & _ & _ & _ & G & _).
-    exact (gov_validate_refuses _ _ _ H G).
+    intros s from to sg G H s' A. apply migrate_tx_inv in A. destruct A as (_ & _ & A).
+    apply migrate_account_inv in A. destruct A as (_ & _ & _ & _ & V & _).
+    exact (gov_validate_refuses _ _ _ (involved_open_seen _ _ _ G H) V).
   Qed.
 
-  (* ... and that is all it refuses *)
+  (* the scan refuses exactly the queued proposals that involve the pair *)
   Theorem gov_exact : forall s from to, queued_exist s ->
     (gov_validate from to s = Ok tt <-> ~ seen_inactive s from to /\ ~ seen_active s from to).
   Proof. exact (fun s from to => gov_validate_exact from to s). Qed.
 
-  Theorem gov_blind : forall s from to,
-    (forall te pid, In (te, pid) (inactiveq (gov s)) -> now s < te) ->
-    (forall te pid, In (te, pid) (activeq (gov s)) -> now s < te) ->
-    gov_validate from to s = Ok tt.
-  Proof. exact (fun s from to => gov_validate_blind from to s). Qed.
-
-  (* indexes *)
-  Theorem indexes_kept : forall s from to sg s',
+  (* indexes: all five stay exact; every moved entry is found by its id under the target's key *)
+  Theorem indexes : forall s from to sg s',
     wf s -> migrate_tx sigT recover s from to sg = Ok s' ->
-    (idx33_ok s -> idx33_ok s') /\ (idx35_ok s -> idx35_ok s') /\ (idx36_ok s -> idx36_ok s').
+    (idx71_ok s -> idx71_ok s') /\ (idx33_ok s -> idx33_ok s') /\ (idx35_ok s -> idx35_ok s') /\
+    (idx36_ok s -> idx36_ok s') /\ (idx38_ok s -> idx38_ok s') /\
+    (forall kv e, In kv (ubds (stake s)) -> fst (fst kv) = from -> In e (u_entries (snd kv)) ->
+       exists k, sget Z.eqb (ue_id e) (unbidx (stake s')) = Some k /\ In (ue_id e, k) (unb_writes from to s)) /\
+    (forall kv e, In kv (reds (stake s)) -> fst (fst kv) = from -> In e (r_entries (snd kv)) ->
+       exists k, sget Z.eqb (re_id e) (unbidx (stake s')) = Some k /\ In (re_id e, k) (unb_writes from to s)).
   Proof.
     intros s from to sg s' W H. pose proof (moves_everything _ _ _ _ _ W H) as M.
-    pose proof (auth _ _ _ _ _ H) as ((N & _) & _ & _ & _ & _ & C).
-    split; [apply (idx33_kept from to s s' M C)|]. split; [apply (idx35_kept from to s s' M C) | apply (idx36_kept from to s s' M C)].
-  Qed.
-
-  Theorem index71_stale : forall s from to sg s',
-    wf s -> idx71_ok s -> migrate_tx sigT recover s from to sg = Ok s' ->
-    (forall v, del_of s from v <> None ->
-       in71 s' from v = true /\ del_of s' from v = None /\ in71 s' to v = false /\ del_of s' to v <> None) /\
-    (idx71_ok s' <-> forall v, del_of s from v = None).
-  Proof.
-    intros s from to sg s' W I H. pose proof (moves_everything _ _ _ _ _ W H) as M.
-    pose proof (auth _ _ _ _ _ H) as ((N & _) & _ & _ & _ & _ & C).
-    split; [apply (idx71_stale from to s s' N M C I) | apply (idx71_exact from to s s' N M C I)].
-  Qed.
-
-  Theorem index38_stale : forall s from to sg s',
-    wf s -> migrate_tx sigT recover s from to sg = Ok s' ->
-    (forall id v, sget Z.eqb id (unbidx (stake s)) = Some (UKubd from v) ->
-       sget Z.eqb id (unbidx (stake s')) = Some (UKubd from v) /\ ubd_of s' from v = None) /\
-    (forall id v w, sget Z.eqb id (unbidx (stake s)) = Some (UKred from v w) ->
-       sget Z.eqb id (unbidx (stake s')) = Some (UKred from v w) /\ red_of s' from v w = None).
-  Proof.
-    intros s from to sg s' W H. pose proof (moves_everything _ _ _ _ _ W H) as M.
-    pose proof (auth _ _ _ _ _ H) as ((N & _) & _).
-    split; [apply (idx38_stale from to s s' N M) | apply (idx38_stale_red from to s s' N M)].
+    pose proof (auth _ _ _ _ _ H) as ((N & _) & _ & _ & _ & _ & C). apply wf_unpack in W.
+    split; [apply (idx71_kept from to s s' M C)|]. split; [apply (idx33_kept from to s s' M C)|].
+    split; [apply (idx35_kept from to s s' M C)|]. split; [apply (idx36_kept from to s s' M C)|].
+    split; [apply (idx38_kept from to s s' M C W)|]. apply (moved_entries_indexed from to s s' M).
   Qed.
 
   Theorem queue_others : forall s from to sg s',
